@@ -64,7 +64,8 @@ def inline(rng, names, defs, depth=0):
 def block(rng, names, defs, depth, allow):
     """one block as a list of lines"""
     kinds = ["para", "para", "para2", "bullet", "ordered", "quote", "code", "fence", "table", "target",
-             "html", "hr", "comment", "deflist", "task", "nestedlist"]
+             "html", "hr", "comment", "deflist", "task", "nestedlist",
+             "trail-break", "trail-list", "trail-code", "trail-fence", "trail-tab"]    # significant trailing whitespace
     if "directive" in allow and depth < 2:
         kinds += ["directive", "directive", "colondiv"]
     if "heading" in allow:
@@ -72,6 +73,16 @@ def block(rng, names, defs, depth, allow):
     k = rng.choice(kinds)
     if k == "para":
         return [inline(rng, names, defs)]
+    if k == "trail-break":      # hard line break written as two trailing spaces
+        return [words(rng, 1, 3) + "  ", words(rng, 1, 2) + "   ", words(rng, 1, 2)]
+    if k == "trail-list":
+        return [f"- {words(rng, 1, 2)}  ", f"  {words(rng, 1, 2)}", f"- {words(rng, 1, 2)}"]
+    if k == "trail-code":
+        return [f"    code {words(rng, 1, 2)}   ", "    second\t", "    third"]
+    if k == "trail-fence":
+        return ["```text", f"code {words(rng, 1, 2)}  ", "tab\t", "   ", "end", "```"]
+    if k == "trail-tab":
+        return [words(rng, 1, 3) + "\t", words(rng, 1, 2)]
     if k == "para2":
         return [inline(rng, names, defs), inline(rng, names, defs) + ("\\" if rng.random() < 0.3 else ""),
                 words(rng)]
